@@ -34,8 +34,8 @@ type Field struct {
 }
 
 func N(name string) Field { return Field{IsName: true, Name: name} }
-func B(b ...byte) Field    { return Field{Raw: b} }
-func U16(v uint16) Field   { return Field{Raw: []byte{byte(v >> 8), byte(v)}} }
+func B(b ...byte) Field   { return Field{Raw: b} }
+func U16(v uint16) Field  { return Field{Raw: []byte{byte(v >> 8), byte(v)}} }
 func U32(v uint32) Field {
 	b := make([]byte, 4)
 	binary.BigEndian.PutUint32(b, v)
@@ -324,8 +324,8 @@ func ParamALPN(protos ...string) Param {
 	}
 	return Param{1, v}
 }
-func ParamNoDefaultALPN() Param  { return Param{2, nil} }
-func ParamPort(p uint16) Param   { return Param{3, []byte{byte(p >> 8), byte(p)}} }
+func ParamNoDefaultALPN() Param { return Param{2, nil} }
+func ParamPort(p uint16) Param  { return Param{3, []byte{byte(p >> 8), byte(p)}} }
 func ParamIPv4(ips ...[]byte) Param {
 	var v []byte
 	for _, ip := range ips {
